@@ -40,6 +40,15 @@ class C11Breeding(Monitor):
     def on_gsc(self, tree, verdict, kind, deme):
         if kind == "deme" and deme.id in self.T:
             self.T[deme.id].append(len(self.ctx.log))
+        # a user-written stop condition may read the populations whenever it is consulted, also in the middle of the consulting
+        # deme's metaepoch: reading must not influence what the next generation is bred from
+        if self.ctx.n_gsc % 2 == 0:
+            for lvl in tree.levels:
+                for d in lvl:
+                    if d.history:
+                        d.current_population
+                        d.best_current_individual
+            self.cov("populations_read_at_a_consultation")
 
     def on_deme_exit(self, deme, start, end):
         self.ranges.setdefault(deme.id, []).append((start, end))
